@@ -1477,7 +1477,7 @@ static int sp_dgemm(char tA, char tB, number alpha, void *a, void *b,
       }
 
       if (beta.d != 0.0) {
-        if (Z->colptr[j+1]-Z->colptr[j] == m) {
+        if (B->colptr[j+1]-B->colptr[j]) {
           for (l=C->colptr[j]; l<C->colptr[j+1]; l++) {
             ((double *)Z->values)[Z->colptr[j]+C->rowind[l]] +=
                 beta.d*((double *)C->values)[l];
@@ -1944,7 +1944,7 @@ static int sp_zgemm(char tA, char tB, number alpha, void *a, void *b,
 #else
       if (creal(beta.z) != 0.0 || cimag(beta.z) != 0.0) {
 #endif
-        if (Z->colptr[j+1]-Z->colptr[j] == m) {
+        if (B->colptr[j+1]-B->colptr[j]) {
           for (l=C->colptr[j]; l<C->colptr[j+1]; l++) {
 #ifndef _MSC_VER
             ((double complex *)Z->values)[Z->colptr[j]+C->rowind[l]] +=
